@@ -20,7 +20,7 @@ RULE = ("grammar-generated ASTs of the stratified expression language (every ope
         "by the reference recogniser (well-formed -> value must equal the specification; unbalanced / wrong "
         "arity / missing operand / missing operator between two operands -> must raise; other -> no verdict); for the "
         "same subset every deletion of one whole operator lexeme; malformed calls at a general position (wrong arity, "
-        "or a dangling operator inside a one-argument call, after a rendered prefix `e o` or at the start, with an "
+        "or a dangling operator inside 1-7 nested one-argument calls, after a rendered prefix `e o` or at the start, with an "
         "empty / well-formed / malformed remainder); random literal candidates for the "
         "float-literal recogniser; long flat chains (550-3000 operands quick, up to 5000 thorough) on one nesting "
         "level for every binary step, operands with sign runs, bare or inside a call; every stream is also solved, in the same order (well-formed strings interleaved "
@@ -65,9 +65,10 @@ ASSUMPTIONS = [
     "C01_reject_arity_after_prefix / _after_operator / _after_expression a call after a well-formed expression "
     "framed by operator symbols; missing operands are proved at token level and at string level for an operator "
     "before or after the text of a well-formed expression (right operand, left operand, trailing sign), and for a "
-    "dangling operator inside parentheses or a one-argument call at the start or after such a prefix "
-    "(C01_reject_missing_operand_in_call, ..._after_prefix); other positions (two adjacent operators in the middle, "
-    "a malformed call nested two or more levels deep or inside a two-argument call) are correspondence-checked",
+    "dangling operator inside any number of nested parentheses / one-argument calls at the start or after such a "
+    "prefix (C01_reject_missing_operand_in_call, ..._nested, ..._after_prefix); other positions (two adjacent "
+    "operators in the middle, a wrong-arity call inside another call, anything inside a two-argument call) are "
+    "correspondence-checked",
 ]
 EXPLANATION = ("theorems (all unbounded, over the regenerated tables): solve(render blanks e) = eval e for every "
                "well-formed e, every blank placement and every atom algebra with neg(neg a)=a (character level: "
@@ -401,7 +402,7 @@ def general_position_texts(rng, asts, n):
     """Malformed calls at a GENERAL position -- the shapes of C01_reject_arity_after_prefix,
     C01_reject_missing_operand_in_call and ..._after_prefix: after a well-formed prefix `e o` (or at the start of
     the string) a call with a wrong number of balanced arguments, or parentheses / a one-argument call around
-    `e' o'` (dangling operator); blanks anywhere; followed by an empty, well-formed or itself malformed remainder."""
+    `e' o'` (dangling operator), itself inside 0-6 further one-argument calls; blanks anywhere; followed by an empty, well-formed or itself malformed remainder."""
     small = [e for e in asts if L.size(e) <= 25] or asts
     ops = list(L.B2_SYM.values())
 
@@ -426,7 +427,10 @@ def general_position_texts(rng, asts, n):
             out.append(prefix + f + ",".join(args) + ")" + rest)
         else:
             f = rng.choice(list(L.F1_SYM.values()))
-            out.append(prefix + f + txt(a) + sp() + rng.choice(ops) + sp() + ")" + rest)
+            inner = txt(a) + sp() + rng.choice(ops) + sp()
+            for _ in range(rng.choice([0, 0, 1, 2, 3, 6])):      # nested one-argument calls / parentheses
+                inner = sp() + rng.choice(list(L.F1_SYM.values())) + inner + ")" + sp()
+            out.append(prefix + f + inner + ")" + rest)
     return out
 
 
